@@ -1,6 +1,7 @@
 //! espada-sim — deterministic simulation with fault injection for axross/espada.
 //! See /verif/DESIGN.md. Exit codes: 0 held, 1 violation, 2 harness error.
 
+mod c04;
 mod c16;
 mod cards;
 mod evalrun;
@@ -45,6 +46,7 @@ fn real_main(args: Vec<String>) -> i32 {
             }
             println!("VERIF_SEED={}", util::verif_seed());
             match args[2].as_str() {
+                "C04" => c04::run(tier),
                 "C16" => c16::run(tier),
                 _ => usage(),
             }
@@ -63,6 +65,7 @@ fn real_main(args: Vec<String>) -> i32 {
             let prop = v["property"].as_str().unwrap_or("").to_string();
             let want = v["key"].as_str().unwrap_or("").to_string();
             let got = match prop.as_str() {
+                "C04" => c04::replay(&v),
                 "C16" => c16::replay(&v),
                 _ => {
                     eprintln!("HARNESS ERROR: unknown property in replay file");
